@@ -2,6 +2,7 @@ SPEC = {
     "id": "C02",
     "harness": "c02",
     "n": {"quick": 3000, "thorough": 60000},
+    "tie_codes": (),
     "shard": 200,
     "trusted_base": [
         "go/pagedoc (text document generator: the source items of every inline formatting context are those the generator wrote; HTML escaping; attribution of line boxes to elements by id)",
